@@ -4,13 +4,29 @@
    What these theorems carry: the mark/sweep half of the property over ALL heaps and root
    lists of the model (no size bound): the marked set is exactly the closure of the edges
    Heap::mark follows, the fuel bound #objects + #edges never runs out, sweep leaves every
-   marked object untouched and frees exactly the unmarked ones, so collect is safe for a
-   reference relation edges_spec iff Heap::mark follows at least those edges -- and on the
-   current code it does not (nested function constants): refuted with the dumped heap.
+   marked object untouched and frees exactly the unmarked ones, and -- since the collector
+   follows every stored reference (/repo ad6fcd1) -- collect keeps every object reachable
+   through any stored reference, unchanged, UNCONDITIONALLY.
    What they do not carry: that VM::collect's root list is complete (interpreter locals,
-   native argument vectors) -- that half is explored by the schedule tie only. *)
+   native argument vectors) -- that half is explored by the schedule tie only.
+   The last section documents the defect the repair removed, stated about the old edge
+   function `edges_old` (it is not a statement about the current code). *)
 From Aelys Require Import Base.Tactics Model.Gc Proofs.GcProofs Proofs.GcWitness.
 Local Open Scope N_scope.
+
+(* HEADLINE.  For every heap and every root list: collect terminates, every object reachable
+   from the roots through any stored reference (incl. constants of nested, not yet instantiated
+   functions at any depth) survives with its contents unchanged, and exactly the unreachable
+   objects are freed. *)
+Theorem C03_collect_safe : forall h roots,
+  exists h', collect h roots = Some h'
+    /\ (forall i o, reachable_spec h roots i -> get h i = Some o -> get h' i = Some o)
+    /\ (forall i, ~ reachable_spec h roots i -> get h' i = None).
+Proof. exact collect_safe_lemma. Qed.
+
+(* the collector follows exactly the references the specification counts *)
+Theorem C03_edges_code_is_spec : forall o, edges_code o = edges_spec o.
+Proof. exact edges_code_eq_spec. Qed.
 
 (* Heap::mark, run from every root as VM::collect does, terminates within the fuel bound
    and marks exactly the live objects reachable along the edges the code follows *)
@@ -46,61 +62,66 @@ Theorem C03_sweep_free_list : forall h m x,
   In x (free (sweep h m)) <-> In x (free h) \/ ((exists o, get h x = Some o) /\ ~ In x m).
 Proof. exact sweep_free_spec. Qed.
 
-(* collect = exactly the code-reachable objects survive, unchanged *)
-Theorem C03_collect_exact : forall h roots,
-  exists h', collect h roots = Some h'
-    /\ (forall i o, reachable_code h roots i -> get h i = Some o -> get h' i = Some o)
-    /\ (forall i, ~ reachable_code h roots i -> get h' i = None).
-Proof. exact collect_spec. Qed.
+(* collect over ANY edge function E: exactly the E-reachable objects survive, unchanged *)
+Theorem C03_collect_exact : forall E h roots,
+  exists h', collect_with E h roots = Some h'
+    /\ (forall i o, reach E h roots i -> get h i = Some o -> get h' i = Some o)
+    /\ (forall i, ~ reach E h roots i -> get h' i = None).
+Proof. exact collect_with_spec. Qed.
 
-(* safety relative to the specification's reference relation *)
-Theorem C03_collect_safe : forall h roots,
-  (forall i o, get h i = Some o -> incl (edges_spec o) (edges_code o)) ->
-  exists h', collect h roots = Some h'
+(* conditional form (the design's statement): a collector whose mark follows at least the
+   specification's edges is safe; the headline is its instance E = edges_code *)
+Theorem C03_collect_safe_if_mark_follows_spec : forall E h roots,
+  (forall i o, get h i = Some o -> incl (edges_spec o) (E o)) ->
+  exists h', collect_with E h roots = Some h'
     /\ forall i o, reachable_spec h roots i -> get h i = Some o -> get h' i = Some o.
-Proof. exact collect_safe_lemma. Qed.
+Proof. exact collect_with_safe. Qed.
 
-(* the proposed repair -- mark follows every stored reference (edges_spec) -- is safe with no
-   premise, and still frees exactly the unreachable objects *)
-Theorem C03_repaired_collect_safe : forall h roots,
-  exists h', collect_with edges_spec h roots = Some h'
-    /\ (forall i o, reachable_spec h roots i -> get h i = Some o -> get h' i = Some o)
-    /\ (forall i, ~ reachable_spec h roots i -> get h' i = None).
-Proof. exact collect_with_spec_safe. Qed.
-
-(* the premise can only fail at function objects: everywhere else the two relations agree,
-   and the code never follows an edge the specification does not have *)
-Theorem C03_edges_agree_off_functions : forall o,
-  ((forall d f, o <> OFunction d f) -> edges_spec o = edges_code o)
-  /\ incl (edges_code o) (edges_spec o).
-Proof. intro o. split; [exact (edges_spec_code_nonfunction o)|exact (edges_code_incl_spec o)]. Qed.
-
-(* On the current code the premise is false and so is the conclusion: the heap dumped from the
-   real VM for corpus/C03/nested_const.aelys has an object that is reachable and is freed. *)
-Theorem C03_nested_constants_refuted :
-  exists h roots i o h',
-    reachable_spec h roots i /\ get h i = Some o /\ collect h roots = Some h' /\ get h' i = None
-    /\ ~ (forall j oj, get h j = Some oj -> incl (edges_spec oj) (edges_code oj)).
-Proof. exact nested_constants_refuted_lemma. Qed.
-
-(* why the loss is silent: the freed index is handed out again by the next allocation *)
+(* why a lost object is silent: the freed index is handed out again by the next allocation *)
 Theorem C03_free_list_aliasing : forall h m i rest o o',
   free (sweep h m) = i :: rest -> get h i = Some o -> ~ In i m ->
   get (sweep h m) i = None /\ exists h2, alloc (sweep h m) o' = (h2, i) /\ get h2 i = Some o'.
 Proof. exact free_list_aliasing_lemma. Qed.
 
-(* the dumped heap after collect: the function object allocated next lands on the string's index *)
-Example C03_witness_aliasing :
-  exists h' h2, collect witness_heap witness_roots = Some h'
+(* non-vacuity: a heap with a closure, an upvalue, a vector, garbage and a function whose
+   depth-2 nested constant (slot 4) is not in its own pool: 4 and 6 are reachable and survive
+   unchanged, 7 is unreachable and freed, the free list is what Heap::sweep builds *)
+Example C03_collect_safe_nonvacuous :
+  reachable_spec good_heap [2] 4 /\ reachable_spec good_heap [2] 6 /\ ~ reachable_spec good_heap [2] 7
+  /\ exists h', collect good_heap [2] = Some h' /\ live h' = [0; 1; 2; 3; 4; 5; 6] /\ free h' = [9; 7; 8]
+                /\ get h' 4 = Some (OString 15).
+Proof. exact nonvacuous_lemma. Qed.
+
+(* ---- HISTORICAL: the defect repaired by /repo ad6fcd1 ----------------------------------
+   Statements about `edges_old` (Heap::mark before the repair: a function's own constants
+   only), NOT about the current code.  Kept so that the check documents, and keeps checking,
+   what the repair fixed; the same program is corpus/C03/nested_const.aelys, which now runs
+   first on every check as a regression input. *)
+
+(* the old collector freed a reachable object: heap dumped from the pre-repair VM *)
+Theorem C03_old_mark_nested_constants_refuted :
+  exists h roots i o h',
+    reachable_spec h roots i /\ get h i = Some o
+    /\ collect_with edges_old h roots = Some h' /\ get h' i = None
+    /\ ~ (forall j oj, get h j = Some oj -> incl (edges_spec oj) (edges_old oj)).
+Proof. exact old_mark_nested_constants_refuted_lemma. Qed.
+
+(* ... and the next allocation landed on the string's index *)
+Example C03_old_witness_aliasing :
+  exists h' h2, collect_with edges_old witness_heap witness_roots = Some h'
     /\ alloc h' (OFunction 1 (FnC [] [FnC [134] []])) = (h2, 134)
     /\ get h2 134 = Some (OFunction 1 (FnC [] [FnC [134] []])).
-Proof. exact witness_aliasing. Qed.
+Proof. exact witness_old_aliasing. Qed.
 
-(* non-vacuity: the premise of C03_collect_safe is satisfiable by a heap that has a closure,
-   an upvalue, a vector, garbage and a function WITH nested constants (all repeated in its own
-   pool); the reachable objects survive, the garbage goes to the free list *)
-Example C03_collect_safe_nonvacuous :
-  (forall i o, get good_heap i = Some o -> incl (edges_spec o) (edges_code o))
-  /\ reachable_spec good_heap [2] 6
-  /\ exists h', collect good_heap [2] = Some h' /\ live h' = [0; 1; 2; 3; 4; 5; 6] /\ free h' = [9; 7; 8].
-Proof. exact nonvacuous_lemma. Qed.
+(* the same heap under the collector as it is: the string survives, nothing is freed *)
+Example C03_witness_now_survives :
+  exists h', collect witness_heap witness_roots = Some h' /\ get h' 134 = Some witness_str
+             /\ free h' = [].
+Proof. exact witness_now_survives. Qed.
+
+(* the old edge function was never unsound in the other direction and differed from the
+   specification only at function objects *)
+Theorem C03_old_edges_differ_only_at_functions : forall o,
+  incl (edges_old o) (edges_spec o)
+  /\ ((forall d f, o <> OFunction d f) -> edges_old o = edges_spec o).
+Proof. intro o. split; [exact (edges_old_incl_spec o)|exact (edges_old_nonfunction o)]. Qed.
